@@ -232,13 +232,34 @@ def r_c04_fractions(s4, repo, scratch):
             'observed': 'all as written' if not bad else 'expected %s, printed %s' % bad[0], 'failed': bool(bad)}
 
 
+def r_c03_yearless_tie_at_after(s4, repo, scratch):
+    """a log without years: every message whose instant equals --dt-after is inside the window (ties included)"""
+    inp = os.path.join(scratch, 'c03_yearless.log')
+    ts = ['09:59:58', '09:59:59', '10:00:00', '10:00:00', '10:00:00', '10:00:01', '10:00:02', '10:00:03', '10:00:04', '10:00:05', '10:00:06', '10:00:07']
+    lines = ['Mar  3 %s host1 app[100]: message %02d\n' % (t, i + 1) for i, t in enumerate(ts)]
+    open(inp, 'w').write(''.join(lines))
+    mt = 1614772800  # 2021-03-03 12:00:00 UTC
+    os.utime(inp, (mt, mt))
+    bad = None
+    for args, first, last in ((['-a', '2021-03-03T10:00:00'], 3, 12), (['-a', '2021-03-03T10:00:00', '-b', '2021-03-03T10:00:04'], 3, 9),
+                              (['-a', '2021-03-03T10:00:00', '-b', '2021-03-03T10:00:00'], 3, 5), (['-a', '2021-03-03T10:00:01'], 6, 12)):
+        rc, out, err = run_s4(s4, ['--color', 'never', '-t', '+00:00'] + args + [inp])
+        want = ''.join(lines[first - 1:last]).encode()
+        if out != want:
+            bad = bad or (' '.join(args), 'messages %d..%d' % (first, last), out.decode('utf-8', 'replace')[:400])
+    return {'name': 'C03.yearless_tie_at_after', 'input': inp, 'how_made': '12 syslog lines without a year, three of them at Mar 3 10:00:00; file mtime 2021-03-03 12:00 UTC',
+            'cmd': '%s --color never -t +00:00 -a 2021-03-03T10:00:00 [-b ..] %s' % (s4, inp),
+            'expected': 'exactly the messages with A <= t <= B, all three tied messages included',
+            'observed': 'as expected' if not bad else 'with %s expected %s, printed %r' % bad, 'failed': bool(bad)}
+
+
 RECIPES = {
     'C04': [r_c04_instants, r_c04_fractions],
     'C10': [r_c03_evtx_window],
     'C01': [r_c01_tie_order, r_c01_chronological],
     'C06': [r_c01_tie_order, r_c01_chronological],
     'C13': [r_c13_field_order_fixedstruct, r_c13_align_widest_printed],
-    'C03': [r_c03_journal_before_inclusive, r_c03_evtx_window],
+    'C03': [r_c03_journal_before_inclusive, r_c03_evtx_window, r_c03_yearless_tie_at_after],
     'C08': [r_c08_equal_times, r_c08_order],
 }
 
